@@ -37,6 +37,7 @@ type Meta struct {
 	NumCases    int      `json:"num_cases"`
 	Exhaustive  bool     `json:"exhaustive"`
 	Serial      bool     `json:"serial"`
+	RaceFrom    int      `json:"race_from"`
 }
 
 type Viol struct {
@@ -199,8 +200,9 @@ func run(id, tier string, seed uint64, jobs int, keep bool) int {
 	if err := json.Unmarshal(mo, &meta); err != nil {
 		return inconclusive("meta-parse")
 	}
+	raceBin := ""
 	if meta.Race {
-		if bin, err = build(work, true); err != nil {
+		if raceBin, err = build(work, true); err != nil {
 			fmt.Fprintln(os.Stderr, err)
 			return inconclusive("race-build-failed")
 		}
@@ -216,15 +218,49 @@ func run(id, tier string, seed uint64, jobs int, keep bool) int {
 	if tier == "thorough" {
 		limit = 90 * time.Minute
 	}
-	results := make([]batchResult, nb)
-	var wg sync.WaitGroup
-	for b := 0; b < nb; b++ {
-		wg.Add(1)
-		go func(b int) {
-			defer wg.Done()
-			results[b] = runBatch(bin, work, id, tier, seed, b, nb, limit, meta.Race)
-		}(b)
+	// With a race build the cases with index >= race_from run in the race
+	// instrumented binary, the others in the plain one.
+	type job struct {
+		bin      string
+		b, nb    int
+		from, to int
+		race     bool
 	}
+	var jobsList []job
+	if meta.Race {
+		nr := nb / 3
+		if nr < 1 {
+			nr = 1
+		}
+		np := nb - nr
+		if np < 1 {
+			np = 1
+		}
+		if meta.RaceFrom > 0 {
+			for b := 0; b < np; b++ {
+				jobsList = append(jobsList, job{bin, b, np, 0, meta.RaceFrom, false})
+			}
+		}
+		if meta.RaceFrom < meta.NumCases {
+			for b := 0; b < nr; b++ {
+				jobsList = append(jobsList, job{raceBin, b, nr, meta.RaceFrom, -1, true})
+			}
+		}
+	} else {
+		for b := 0; b < nb; b++ {
+			jobsList = append(jobsList, job{bin, b, nb, 0, -1, false})
+		}
+	}
+	results := make([]batchResult, len(jobsList))
+	var wg sync.WaitGroup
+	for i, j := range jobsList {
+		wg.Add(1)
+		go func(i int, j job) {
+			defer wg.Done()
+			results[i] = runBatch(j.bin, work, id, tier, seed, i, j.b, j.nb, j.from, j.to, limit, j.race)
+		}(i, j)
+	}
+	nb = len(jobsList)
 	wg.Wait()
 
 	// merge
@@ -258,7 +294,7 @@ func run(id, tier string, seed uint64, jobs int, keep bool) int {
 	// race reports are classified by the child binary's own filter
 	var raceSummary map[string]interface{}
 	if meta.Race {
-		rs, rviol := classifyRaces(bin, work, id)
+		rs, rviol := classifyRaces(raceBin, work, id)
 		raceSummary = rs
 		viols = append(viols, rviol...)
 	}
@@ -499,18 +535,18 @@ func runChild(bin string, args []string, logPath string, limit time.Duration, en
 	}
 }
 
-func runBatch(bin, work, id, tier string, seed uint64, b, nb int, limit time.Duration, race bool) (res batchResult) {
+func runBatch(bin, work, id, tier string, seed uint64, slot, b, nb, fromIdx, toIdx int, limit time.Duration, race bool) (res batchResult) {
 	res.out.Stats = map[string]int64{}
 	env := append(os.Environ(), "GOTRACEBACK=all")
 	if race {
 		env = append(env, fmt.Sprintf("GORACE=halt_on_error=0 log_path=%s", filepath.Join(work, "race")))
 	}
-	from := 0
+	from := fromIdx
 	for attempt := 0; attempt < 6; attempt++ {
-		outPath := filepath.Join(work, fmt.Sprintf("b%d-%d.json", b, attempt))
-		logPath := filepath.Join(work, fmt.Sprintf("b%d-%d.log", b, attempt))
+		outPath := filepath.Join(work, fmt.Sprintf("b%d-%d.json", slot, attempt))
+		logPath := filepath.Join(work, fmt.Sprintf("b%d-%d.log", slot, attempt))
 		args := []string{"-p", id, "-tier", tier, "-seed", strconv.FormatUint(seed, 10),
-			"-batch", strconv.Itoa(b), "-nbatch", strconv.Itoa(nb), "-from", strconv.Itoa(from), "-out", outPath}
+			"-batch", strconv.Itoa(b), "-nbatch", strconv.Itoa(nb), "-from", strconv.Itoa(from), "-to", strconv.Itoa(toIdx), "-out", outPath}
 		ok, timedOut := runChild(bin, args, logPath, limit, env)
 		var o ChildOut
 		if data, err := os.ReadFile(outPath); err == nil {
@@ -537,8 +573,8 @@ func runBatch(bin, work, id, tier string, seed uint64, b, nb int, limit time.Dur
 		if timedOut {
 			// Re-run that single case alone with a generous limit: if it
 			// completes, the firing was load; otherwise it is decided as a hang.
-			soloLog := filepath.Join(work, fmt.Sprintf("b%d-solo-%d.log", b, open))
-			soloOut := filepath.Join(work, fmt.Sprintf("b%d-solo-%d.json", b, open))
+			soloLog := filepath.Join(work, fmt.Sprintf("b%d-solo-%d.log", slot, open))
+			soloOut := filepath.Join(work, fmt.Sprintf("b%d-solo-%d.json", slot, open))
 			sok, _ := runChild(bin, []string{"-p", id, "-tier", tier, "-seed", strconv.FormatUint(seed, 10), "-only", strconv.Itoa(open), "-out", soloOut}, soloLog, 5*time.Minute, env)
 			if sok {
 				var so ChildOut
